@@ -19,7 +19,9 @@ pub fn write(
     let mut thread_list = MemoryArrayWriter::<MDRawThreadName>::alloc_array(buffer, num_threads)?;
     dirent.location.data_size += thread_list.location().data_size;
 
-    for (idx, item) in dumper.threads.iter().enumerate() {
+    // Index into the (named-only) array, not into the list of all threads.
+    let mut idx = 0;
+    for item in dumper.threads.iter() {
         if let Some(name) = &item.name {
             let pos = write_string_to_location(buffer, name)?;
             let thread = MDRawThreadName {
@@ -27,6 +29,7 @@ pub fn write(
                 thread_name_rva: pos.rva.into(),
             };
             thread_list.set_value_at(buffer, thread, idx)?;
+            idx += 1;
         }
     }
     Ok(dirent)
